@@ -202,7 +202,8 @@ Section SEM.
     negb (Nat.eqb (List.length (sel_matchers q)) 0) && forallb stage_supported (sel_pipeline q).
 
   (* the oracle values carried by the query agree with the oracles:
-     re2Like's (literal, fold-case) answer describes the regex; a numeric literal and its %f rendering
+     re2Like's (literal, fold-case) answer describes the regex; a numeric literal and the text sql.FloatVal prints for it
+     (shortest exact decimal since fix 57651aa; it was the six-decimal %f rendering before)
      denote the same number *)
   Definition simple_oracle_ok (s : simple_lf) : Prop :=
     lblop_numeric s = true ->
